@@ -46,3 +46,13 @@ func init() {
 			{Name: "robust", Run: "^TestRobust$", Checks: [2]int{400, 8000}, Shards: [2]int{6, 16}},
 		}})
 }
+
+func init() {
+	reg(PropCfg{ID: "C07", Pkg: "c07", Level: "exploration",
+		Rule: "expression texts parsed by the repository parser and by an independent table-driven reference parser written from the operator table in the property: canonical S-expression trees must be identical; table = every ordered pair and triple of the 19 binary operators and 'as', the 12 assignment operators at the root over every pair, all prefix x binary x postfix combinations (exhaustive); random = expression trees to depth 8 printed with minimal, textbook and full parentheses; layout = token sequences of the shipped examples/tests and generated programs re-spaced with whitespace/comments, redundant parentheses around single-node operands, trailing commas: canonical program trees and error status must not change; non-trivial = >= 2 operators (two levels to order or one level to associate) / a variant that differs from the original text; distinct by text",
+		Jobs: []Job{
+			{Name: "tables", Run: "^(TestTablePairsTriples|TestReferenceExamples)$", Shards: [2]int{2, 4}},
+			{Name: "trees", Run: "^TestTrees$", Checks: [2]int{5000, 60000}, Shards: [2]int{4, 16}},
+			{Name: "layout", Run: "^TestLayout$", Checks: [2]int{3000, 40000}, Shards: [2]int{4, 16}},
+		}})
+}
